@@ -1,6 +1,7 @@
 SPECIFICATION Spec
 CONSTANTS
   Exps = {0, 5}
+  Replay = FALSE
   MaxCycles = 1
   MaxRootUpdates = 4
   Times = {0, 1, 2}
